@@ -16,6 +16,8 @@ func validateStubs(ld *Loaded, cfg *Config) (map[string]int, error) {
 	tt := NewTermTable()
 	in := &Interp{prog: ld.prog, ld: ld, tt: tt, cfg: cfg, maxSteps: 1 << 30, fnInfos: map[*ssa.Function]*fnInfo{}, fnMetas: map[*ssa.Function]*fnMeta{}}
 	in.pcSet = map[int]bool{}
+	in.extInit = map[*ssa.Package]bool{}
+	in.onceDone = map[string]bool{}
 	in.pcEq = map[int]uint64{}
 	in.pcNe = map[int][]uint64{}
 	in.inputKinds = map[string]string{}
